@@ -75,7 +75,7 @@ func (x *Ctx) schemaStructure(ms *spec.Msg, attrs map[string]tfsdk.Attribute, pa
 	for _, i := range ms.Injected {
 		want[i.Name] = true
 	}
-	if ms.Empty {
+	if ms.Placeholder {
 		want["active"] = true
 	}
 	var names []string
@@ -135,7 +135,7 @@ func (x *Ctx) schemaStructure(ms *spec.Msg, attrs map[string]tfsdk.Attribute, pa
 			*out = append(*out, problem{fp: "schema/injected-type", path: path + "." + i.Name, msg: fmt.Sprintf("injected type %v, want %v", sa.Type, wt)})
 		}
 	}
-	if ms.Empty {
+	if ms.Placeholder {
 		if sa, ok := attrs["active"]; !ok || !safeTypeEqual(sa.Type, types.BoolType) {
 			*out = append(*out, problem{fp: "schema/placeholder", path: path + ".active", msg: "empty message is not represented by a boolean attribute `active`"})
 		}
